@@ -449,12 +449,62 @@ func (e *Engine) Discharge(results []*FuncResult, so SolveOpts) {
 		}
 		wg2.Wait()
 	}
-	runStage(retry, []solverSpec{solvers[0], solvers[len(solvers)-1]}, 8)
-	var retry2 []*Obl
+	twoStages := func(obls []*Obl) {
+		runStage(obls, []solverSpec{solvers[0], solvers[len(solvers)-1]}, 8)
+		var retry2 []*Obl
+		for _, o := range obls {
+			if o.Status != "unsat" && o.Status != "sat" {
+				retry2 = append(retry2, o)
+			}
+		}
+		runStage(retry2, solvers[1:], 3)
+	}
+	// The same obligation usually recurs on many paths (name~2, name~3, ...). When it does not hold, retrying every
+	// instance on the whole portfolio costs minutes and tells nothing new: the first few instances of each base name
+	// are retried; the others are retried only if those were all discharged.
+	const perBase = 3
+	groups := map[string][]*Obl{}
+	var order []string
+	var first []*Obl
 	for _, o := range retry {
-		if o.Status != "unsat" && o.Status != "sat" {
-			retry2 = append(retry2, o)
+		if o.Canary {
+			first = append(first, o)
+			continue
+		}
+		b := o.Name
+		if i := strings.LastIndex(b, "~"); i > 0 {
+			b = b[:i]
+		}
+		if _, ok := groups[b]; !ok {
+			order = append(order, b)
+		}
+		groups[b] = append(groups[b], o)
+		if len(groups[b]) <= perBase {
+			first = append(first, o)
 		}
 	}
-	runStage(retry2, solvers[1:], 3)
+	twoStages(first)
+	var rest []*Obl
+	for _, b := range order {
+		g := groups[b]
+		if len(g) <= perBase {
+			continue
+		}
+		allOK := true
+		for _, o := range g[:perBase] {
+			if o.Status != "unsat" {
+				allOK = false
+			}
+		}
+		if allOK {
+			rest = append(rest, g[perBase:]...)
+		} else {
+			for _, o := range g[perBase:] {
+				o.Solver = "not retried: the same obligation already failed on " + fmt.Sprint(perBase) + " earlier paths"
+			}
+		}
+	}
+	if len(rest) > 0 {
+		twoStages(rest)
+	}
 }
